@@ -47,10 +47,8 @@ impl SMM {
 		// otherwise the instance is exactly what `new` followed by the same pushes would hold: same window, sorted buffer = its multiset, middle positions
 		r is Ok ==> r->Ok_0.inv() && r->Ok_0.window == window,
 //@replace #[derive(Deserialize)] struct DeserializedSMM { window: Window<ValueType>, } let de = DeserializedSMM::deserialize(deserializer)?; let window = de.window; ==> 
-//@replace return Err(serde::de::Error::custom("SMM must have non-zero length.")); ==> return Err(());
 //@replace let mut slice = window.as_slice().to_owned().into_boxed_slice(); ==> let mut slice = slice_to_boxed(window.as_slice());
-//@replace let mut sort_error = false; slice.sort_unstable_by(|a, b| { a.partial_cmp(b).unwrap_or_else(|| { sort_error = true; Ordering::Equal }) }); ==> let sort_error = sort_values(&mut slice);
-//@replace return Err(serde::de::Error::custom("SMM cannot operate NaN values")); ==> return Err(());
+//@replace slice.sort_unstable_by(|a, b| { a.partial_cmp(b).unwrap_or_else(|| { sort_error = true; Ordering::Equal }) }); ==> sort_error = sort_values(&mut slice);
 //@hint before let half
 	proof {
 		let n = window.size as int;
